@@ -762,6 +762,9 @@ std::string group_ref(std::string const &plain, loc_def const &d)
 template <std::size_t I>
 void loc_one(i64 raw, i64 li)
 {
+  // part of every case (so that a failure replays): with the global locale untouched,
+  // insert_extract_locale() is the classic locale, as documented
+  if (!(fcppt::insert_extract_locale() == std::locale::classic())) fail("insert_extract_locale|not-the-C-locale", "insert_extract_locale() is not the classic locale although the global locale was never changed");
   using T = std::tuple_element_t<I, int_types>;
   T const v = from_bits<T>(raw);
   loc_def const &d = loc_defs[static_cast<std::size_t>(li) % n_locs];
@@ -802,7 +805,6 @@ auto const loc_table = make_loc(std::make_index_sequence<6>{});
 Reg const r_loc{"locale_variants_text", Kind::random, "the locale groups digits and the value has enough digits for at least one separator",
                 [] {
                   auto go = [](i64 t, i64 v, i64 l) { cur3(t, v, l); loc_table[static_cast<std::size_t>(t)](v, l); };
-                  if (!(fcppt::insert_extract_locale() == std::locale::classic())) { cur3(0, 0, 0); count(true); fail("insert_extract_locale|not-the-C-locale", "insert_extract_locale() is not the classic locale although the global locale was never changed"); }
                   {
                     // the example of the documentation of insert_extract_locale
                     cur3(2, 300100, 1);
